@@ -170,4 +170,7 @@ theorem step_effMin {P : Params} {d d' : Deque α} {op : Op α} {out : Out α}
     · rfl
 
 end
+/-- `landMask` on a non-negative argument is the plain `&` (used by the `C12_tr_*` theorems) -/
+theorem landMask_ofNat (n m : Nat) : landMask (n : Int) m = n &&& m := rfl
+
 end Fatchoy.C12
